@@ -45,6 +45,8 @@ CATALOGUE = {
                            "  fa: forall (i = 1:n)\n    a(i) = 9\n  end forall fa\nend subroutine nm\n"),
     "two_units": "subroutine a\nend subroutine a\nfunction b()\n  b = 1\nend function b\n",
     "duplicate_statements": "program d\n  integer :: i, j\n  i = 1\n  j = 2\n  i = 1\n  print *, i, j\n  j = 2\n  print *, i, j\nend program d\n",
+    "same_text_different_names": ("subroutine q(a, n)\n  integer :: n, i\n  real :: a(n)\n  first: do i = 1, n\n    a(i) = 0\n  end do first\n  second: do i = 1, n\n    a(i) = 1\n  end do second\n"
+                                  "  chk1: if (n > 0) then\n    a(1) = 2\n  end if chk1\n  chk2: if (n > 0) then\n    a(1) = 3\n  end if chk2\n10 continue\n20 continue\nend subroutine q\n"),
     "anonymous_main": "integer :: a, b(3)\nreal :: x\na = 1\nif (a > 0) then\n  b(a) = 2\nend if\ncall s(a)\nend\nsubroutine s(k)\n  integer :: k\n  k = k + 1\nend subroutine s\n",
 }
 F2008_EXTRA = {
@@ -741,6 +743,26 @@ def main(argv):
                     if expect not in got or ("INCLUDE" in got) != ("INCLUDE" in expect):
                         fail("include#first_matching_directory_wins_per_parse", dict(main=msrc, include_dirs=["A" if x == da else "B" if x == db else "C" for x in dirs]),
                              dict(printed=got, expected_line=expect))
+            # the search order is the same for every include of a parse: an earlier include found only in a later directory
+            # (as a sibling or as the enclosing file) does not change which file a later include of another name resolves to
+            with tempfile.TemporaryDirectory() as da, tempfile.TemporaryDirectory() as db:
+                open(os.path.join(da, "h.inc"), "w").write("  y = 10\n")
+                open(os.path.join(db, "h.inc"), "w").write("  y = 20\n")
+                open(os.path.join(db, "only_b.inc"), "w").write("  x = 1\n")
+                open(os.path.join(db, "outer_b.inc"), "w").write("  x = 2\n  include 'h.inc'\n")
+                for case, msrc3 in (("sibling", "program p\n  include 'only_b.inc'\n  include 'h.inc'\nend program p\n"),
+                                    ("nested", "program p\n  include 'outer_b.inc'\nend program p\n"),
+                                    ("before_and_after", "program p\n  include 'h.inc'\n  include 'only_b.inc'\n  include 'h.inc'\nend program p\n")):
+                    open(os.path.join(da, "main3.f90"), "w").write(msrc3)
+                    for kind in ("string", "file"):
+                        cases += 1
+                        try:
+                            rd = FortranStringReader(msrc3, include_dirs=[da, db]) if kind == "string" else FortranFileReader(os.path.join(da, "main3.f90"), include_dirs=[da, db])
+                            got = str(ParserFactory().create(std="f2003")(rd))
+                        except BaseException as e:  # noqa
+                            got = "%s: %s" % (type(e).__name__, e)
+                        if "y = 20" in got or "y = 10" not in got or "INCLUDE" in got:
+                            fail("include#first_matching_directory_wins_per_parse", dict(main=msrc3, include_dirs=["A", "B"], case=case, reader=kind), dict(printed=got, expected_line="y = 10"))
             # an entry of that name that is not a file (a directory) in an earlier include directory is not a match
             with tempfile.TemporaryDirectory() as dx:
                 os.mkdir(os.path.join(dx, "a")); os.mkdir(os.path.join(dx, "b")); os.mkdir(os.path.join(dx, "a", "x.inc"))
